@@ -1185,6 +1185,15 @@ class KmipEngine(object):
         else:
             return False
 
+    @staticmethod
+    def _format_date(value):
+        # Dates beyond what the platform's time functions can represent are
+        # legal in a request; show them as plain numbers.
+        try:
+            return time.asctime(time.gmtime(value))
+        except (OverflowError, OSError, ValueError):
+            return str(value)
+
     def _is_valid_date(self, date_type, value, start, end):
         date_type = date_type.value.lower()
 
@@ -1195,9 +1204,9 @@ class KmipEngine(object):
                         "Failed match: object's {} ({}) is less than "
                         "the starting {} ({}).".format(
                             date_type,
-                            time.asctime(time.gmtime(value)),
+                            self._format_date(value),
                             date_type,
-                            time.asctime(time.gmtime(start))
+                            self._format_date(start)
                         )
                     )
                     return False
@@ -1206,9 +1215,9 @@ class KmipEngine(object):
                         "Failed match: object's {} ({}) is greater than "
                         "the ending {} ({}).".format(
                             date_type,
-                            time.asctime(time.gmtime(value)),
+                            self._format_date(value),
                             date_type,
-                            time.asctime(time.gmtime(end))
+                            self._format_date(end)
                         )
                     )
                     return False
@@ -1218,9 +1227,9 @@ class KmipEngine(object):
                         "Failed match: object's {} ({}) does not match "
                         "the specified {} ({}).".format(
                             date_type,
-                            time.asctime(time.gmtime(value)),
+                            self._format_date(value),
                             date_type,
-                            time.asctime(time.gmtime(start))
+                            self._format_date(start)
                         )
                     )
                     return False
